@@ -53,7 +53,7 @@ COMPONENTS = {
 PROBES = ["dir_fastavro_writes", "dir_peer_writes", "fixture", "is_avro", "empty_block", "multi_chunk_header",
           "codec_key_absent", "deflate_trailing_bytes", "codec_null", "codec_deflate", "codec_bzip2", "codec_xz",
           "tiling_ge2_blocks", "is_avro_path", "is_avro_true", "is_avro_false", "foreign_block_ge64_records",
-          "foreign_big_header", "profile_many_records", "profile_huge_record"]
+          "foreign_big_header", "profile_many_records", "profile_huge_record", "append_to_foreign_file"]
 
 _FIXTURES = None
 
@@ -118,7 +118,28 @@ def fastavro_writes(F, ch, ctx):
     desc = sc.describe()
     info = {"direction": "fastavro->peer"}
     ctx.probe("codec_" + sc.codec)
-    data = common.fa_file(sc)
+    if sc.profile == "small" and len(sc.records) >= 2 and ch.chance(15):
+        # the peer wrote the first part (codec key possibly absent, multi-chunk header), fastavro
+        # appends the rest with arbitrary arguments: the result must still be one spec-conforming file
+        ctx.probe("append_to_foreign_file")
+        cutp = 1 + ch.draw(len(sc.records) - 1)
+        first = [common.strip_hints(r, sc.node) for r in sc.records[:cutp]]
+        fcodec = "null" if ch.chance(60) else sc.codec
+        fbytes, _t = refavro.write_container(sc.node, sc.schema, [first], codec=fcodec, sync=ch.bytes(16), ch=ch,
+                                             codec_key=(fcodec != "null") or ch.chance(40), meta=sc.metadata, layout=refavro.Layout(ch))
+        fo = io.BytesIO(fbytes)
+        fo.seek(0, 2)
+        try:
+            F.writer(fo, None if ch.draw(2) else sc.schema, sc.records[cutp:], codec=ch.pick(common.CODECS),
+                     sync_interval=sc.sync_interval, metadata={"other": "m"} if ch.draw(2) else None)
+        except Exception as e:  # noqa
+            raise Violation("layout", "append-to-foreign-file-raises", detail=dict(info, exc=jsonable(e)), scenario=desc)
+        data = fo.getvalue()
+        info["appended_to_foreign"] = {"foreign_codec": fcodec, "first": cutp}
+        sc.codec = fcodec
+        sc.sync_marker = b""
+    else:
+        data = common.fa_file(sc)
     try:
         p = refavro.parse_container(data)
     except refavro.RefError as e:
@@ -132,6 +153,8 @@ def fastavro_writes(F, ch, ctx):
     if sc.sync_marker and p.sync != sc.sync_marker:
         raise Violation("layout", "sync-marker-differs", detail=dict(info, header=p.sync.hex()), scenario=desc)
     for k, v in (sc.metadata or {}).items():
+        if k.startswith("avro."):
+            continue   # reserved keys describe the file, not what the caller happened to pass
         if p.meta.get(k) != v.encode("utf-8"):
             raise Violation("layout", "metadata-differs", detail=dict(info, key=k), scenario=desc)
     if len(p.records) != len(sc.records):
